@@ -109,7 +109,10 @@ void lp_variable_list_push(lp_variable_list_t* list, lp_variable_t var) {
 void lp_variable_list_pop(lp_variable_list_t* list) {
   assert(list->list_size > 0);
   lp_variable_t var = list->list[-- list->list_size];
-  list->var_to_index_map[var] = -1;
+  // The slot is empty if the variable was removed
+  if (var != lp_variable_null) {
+    list->var_to_index_map[var] = -1;
+  }
 }
 
 lp_variable_t lp_variable_list_top(const lp_variable_list_t* list) {
